@@ -727,6 +727,8 @@ def comprehension(I, e, kind):
         else:
             n = z3.simplify(z3.Length(seq))
             if not z3.is_int_value(n):
+                if kind == "list" and not g.ifs:
+                    return map_comprehension(I, e, g, seq)
                 raise Unsupported("comprehension over a sequence of symbolic length", e)
             elems = [z3.simplify(seq[i]) for i in range(n.as_long())]
     # comprehension scope: a child frame sharing the enclosing frame lexically
@@ -749,6 +751,36 @@ def comprehension(I, e, kind):
         return dout if kind == "dict" else V.VList(out)
     finally:
         I.pop_frame()
+
+
+def map_comprehension(I, e, g, seq):
+    """[f(x) for x in seq] over a sequence of symbolic length: a fresh sequence R of the same length with
+    R[k] == f(seq[k]) for all k.  f is the real element expression, evaluated once on a generic element; the
+    summary is only used when that evaluation is a pure function of the element (no fork, no fresh value)."""
+    elem = I.fresh("comp_elem")
+    kind_hint = getattr(I, "seq_elem_kind", {}).get(z3.simplify(seq).get_id())
+    if kind_hint == "str":
+        I.assume(V.is_str(elem))
+    I.push_frame(I.frame.func, I.frame.module, I.frame, tag=f"<mapcomp@{e.lineno}>")
+    try:
+        n_dec, n_cnt = len(I.decisions), I.counter
+        I.assign(g.target, elem)
+        val = I.eval(e.elt)
+        if len(I.decisions) != n_dec or I.counter != n_cnt:
+            raise Unsupported("comprehension body is not a pure function of the element", e)
+    finally:
+        I.pop_frame()
+    I.counter += 1
+    R = z3.Const(f"mapseq~{I.counter}", V.SeqVal)
+    k = z3.Int(f"mk~{I.counter}")
+    I.assume(z3.Length(R) == z3.Length(seq))
+    I.assume(z3.ForAll([k], z3.Implies(z3.And(k >= 0, k < z3.Length(seq)),
+                                       R[k] == z3.substitute(val, (elem, seq[k])))))
+    # ground instances at the ends (the usual places a tail/head is taken)
+    ln = z3.Length(seq)
+    I.assume(z3.Implies(ln >= 1, z3.And(R[ln - 1] == z3.substitute(val, (elem, seq[ln - 1])),
+                                        R[0] == z3.substitute(val, (elem, seq[0])))))
+    return V.VList(R)
 
 
 # --------------------------------------------------------------------------- methods on builtin values
@@ -979,6 +1011,9 @@ def m_str_split(I, s, args, kwargs, node):
     # ground lemmas (audited): at least one part; contracts that need more (split over concatenation, element
     # types) add the instances they use through ctx.split_hook
     I.assume(z3.Length(r) >= 1)
+    if not hasattr(I, "seq_elem_kind"):
+        I.seq_elem_kind = {}
+    I.seq_elem_kind[r.get_id()] = "str"
     h = getattr(I.ctx, "split_hook", None)
     if h is not None:
         h(I, x, sep, r)
